@@ -537,15 +537,70 @@ func run(c *reg.Ctx) {
 	}
 }
 
-// invalidUTF8: arguments that are not valid UTF-8 are outside the rune model;
-// the reference is direct: an unknown short option takes the rest of the word.
+// invalidUTF8: words of short options that are not valid UTF-8 are outside the
+// rune model; they are judged here directly.  The oracle: no panic; every
+// option character is what Go's decoder yields at that byte offset (U+FFFD, one
+// byte wide, for an invalid byte); the argument of an unknown or argument-taking
+// option is the exact byte suffix of the word after that character.
 func invalidUTF8(c *reg.Ctx) {
-	for _, tail := range []string{"", "a", "ab", "abc", "abcd"} {
-		args := []string{"-\xff" + tail}
+	specs := []*getopt.OptionSpec{sp('a', "all", getopt.NoArgument), sp('b', "", getopt.NoArgument),
+		sp('o', "output", getopt.RequiredArgument), sp('p', "", getopt.OptionalArgument)}
+	words := []string{"-\xff", "-\xffa", "-\xffab", "-\xffabc", "-\xffabcd", "-a\xff", "-ab\xffrest",
+		"-o\xff", "-o\xffab", "-p\xc3", "-a\xe2\x82", "-a\xe2\x82rest", "-\xc3\xa9\xff", "-ab\x80\x80", "-\xed\xa0\x80x"}
+	bad := []string{"\xff", "\x80", "\xc3", "\xe2\x82", "\xf0\x9f", "\xed\xa0\x80", "\xc0\xaf"}
+	n := c.N / 40
+	for i := 0; i < n; i++ {
+		w := "-"
+		for j := c.Rand.Intn(3); j > 0; j-- {
+			w += pick(c, []string{"a", "b"})
+		}
+		if c.Rand.Intn(3) == 0 {
+			w += pick(c, []string{"o", "p"})
+		}
+		w += pick(c, bad) + pick(c, []string{"", "a", "ab", "abc", "é", "=x", "\xff"})
+		words = append(words, w)
+	}
+	for _, w := range words {
+		args := []string{w, "next"}
 		sel := cfgSel{name: "GNU"}
-		class := classOf("Parse", sel, nil, args)
-		d := desc{Call: "Parse", Cfg: "GNU", Args: args, Via: "invalid-utf8"}
-		cs := reg.Case{Key: fmt.Sprintf("invalid|%q", args), Class: class}
+		class := classOf("Parse", sel, specs, args)
+		d := desc{Call: "Parse", Cfg: "GNU", Specs: descSpecs(specs), Args: args, Via: "invalid-utf8"}
+		cs := reg.Case{Key: fmt.Sprintf("invalid|%q", args), Class: class, Nontrivial: true}
+		// expected reading of the word
+		type exp struct {
+			short   rune
+			unknown bool
+			arg     string
+		}
+		var want []exp
+		needNext := false
+		body := w[1:]
+		for i := 0; i < len(body); {
+			r, size := utf8.DecodeRuneInString(body[i:])
+			var found *getopt.OptionSpec
+			for _, s := range specs {
+				if s.Short != 0 && s.Short == r {
+					found = s
+					break
+				}
+			}
+			rest := body[i+size:]
+			if found != nil && found.Arity == getopt.NoArgument {
+				want = append(want, exp{r, false, ""})
+				i += size
+				continue
+			}
+			if found != nil {
+				if rest == "" && found.Arity == getopt.RequiredArgument {
+					needNext = true
+					rest = "next"
+				}
+				want = append(want, exp{r, false, rest})
+			} else {
+				want = append(want, exp{r, true, rest})
+			}
+			break
+		}
 		func() {
 			defer func() {
 				if r := recover(); r != nil {
@@ -553,11 +608,16 @@ func invalidUTF8(c *reg.Ctx) {
 					cs.Direct = fmt.Sprintf("getopt.Parse panics on %q: %v", args, r)
 				}
 			}()
-			opts, _, _ := getopt.Parse(args, nil, getopt.GNU)
-			d.Obs = "opts=" + optsStr(opts)
-			if len(opts) != 1 || opts[0].Argument != tail {
-				cs.Direct = fmt.Sprintf("getopt.Parse(%q): the unknown option's argument is %q, the rest of the word is %q",
-					args, optsStr(opts), tail)
+			opts, non, _ := getopt.Parse(append([]string(nil), args...), copySpecs(specs), getopt.GNU)
+			d.Obs = fmt.Sprintf("opts=%s non=%q", optsStr(opts), non)
+			ok := len(opts) == len(want) && (needNext && len(non) == 0 || !needNext && len(non) == 1 && non[0] == "next")
+			for i := 0; ok && i < len(want); i++ {
+				o := opts[i]
+				ok = o.Spec.Short == want[i].short && o.Unknown == want[i].unknown && o.Argument == want[i].arg && !o.Long
+			}
+			if !ok {
+				cs.Direct = fmt.Sprintf("getopt.Parse(%q) returns %s with arguments %q; the word reads as %+v (each argument is the exact byte suffix)",
+					args, optsStr(opts), non, want)
 			}
 		}()
 		cs.Desc = d
